@@ -8,8 +8,8 @@ Local Open Scope N_scope.
 Lemma dec_sim bd t {R1 R2} (rho : R1 -> R2 -> Prop) o1 o2 r1 r2 :
   rops_rel bd rho o1 o2 -> rho r1 r2 -> rel_res bd rho (dec t o1 r1) (dec t o2 r2).
 Proof.
-  intros Hops Hr. unfold dec. apply dec_with_sim; [exact Hops| |exact Hr].
-  intros p s1 s2 Hs. apply decp_sim; assumption.
+  intros Hops Hr. unfold dec. apply dec_with_sim1; [exact Hops| |exact Hr].
+  intros p s1 s2 Hs. apply decp_sim1; assumption.
 Qed.
 
 Theorem dec_any_source t v {R} (rho : R -> LR -> Prop) (o : rops R) r rest :
@@ -20,7 +20,7 @@ Proof.
   intros Hwf Hv Hops Hr.
   pose proof (dec_sim true t rho o lr_ops r _ Hops Hr) as H.
   rewrite (dec_from_payload t v rest Hv (decp_payload t v Hwf Hv rest)) in H.
-  unfold rel_res in H. destruct (dec t o r) as [v' r'|e r']; [|contradiction].
+  unfold rel_res, rel_resg in H. destruct (dec t o r) as [v' r'|e r']; [|contradiction].
   destruct H as [-> H]. exists r'. auto.
 Qed.
 
@@ -35,12 +35,12 @@ Proof.
              rel_res true (fun a c => exists b, rho12 a b /\ rho23 b c) m1 m3).
   { intros A m1 m2 m3 Ha Hb. destruct m1, m2, m3; cbn in *; try contradiction;
       destruct Ha as [-> Ha], Hb as [-> Hb]; split; eauto. }
-  split.
-  - intros n r1 r3 (r2 & Ha & Hb). eapply T; [apply (rr_ensure _ _ _ _ H12)|apply (rr_ensure _ _ _ _ H23)]; eassumption.
-  - intros r1 r3 (r2 & Ha & Hb). eapply T; [apply (rr_read1 _ _ _ _ H12)|apply (rr_read1 _ _ _ _ H23)]; eassumption.
-  - intros n r1 r3 (r2 & Ha & Hb). eapply T; [apply (rr_readn _ _ _ _ H12)|apply (rr_readn _ _ _ _ H23)]; eassumption.
-  - intros n r1 r3 (r2 & Ha & Hb). eapply T; [apply (rr_skip _ _ _ _ H12)|apply (rr_skip _ _ _ _ H23)]; eassumption.
-  - intros h r1 r3 (r2 & Ha & Hb). eapply T; [apply (rr_gethandle _ _ _ _ H12)|apply (rr_gethandle _ _ _ _ H23)]; eassumption.
+  apply mk_rops_rel.
+  - intros n r1 r3 (r2 & Ha & Hb). eapply T; [apply (rr_ensure _ _ _ _ _ H12)|apply (rr_ensure _ _ _ _ _ H23)]; eassumption.
+  - intros r1 r3 (r2 & Ha & Hb). eapply T; [apply (rr_read1 _ _ _ _ _ H12)|apply (rr_read1 _ _ _ _ _ H23)]; eassumption.
+  - intros n r1 r3 (r2 & Ha & Hb). eapply T; [apply (rr_readn _ _ _ _ _ H12)|apply (rr_readn _ _ _ _ _ H23)]; eassumption.
+  - intros n r1 r3 (r2 & Ha & Hb). eapply T; [apply (rr_skip _ _ _ _ _ H12)|apply (rr_skip _ _ _ _ _ H23)]; eassumption.
+  - intros h r1 r3 (r2 & Ha & Hb). eapply T; [apply (rr_gethandle _ _ _ _ _ H12)|apply (rr_gethandle _ _ _ _ _ H23)]; eassumption.
 Qed.
 
 (* the buffer reader model (BufferReader after its repair, PedanticBufferReader)
@@ -56,7 +56,7 @@ Proof.
     rewrite add64_small by lia. repeat split; try lia. rewrite skipn_skipn'. f_equal. lia. }
   assert (Len : forall r, br_idx r <= br_size r -> nlen (skipn (tn (br_idx r)) (br_buf r)) = br_size r - br_idx r).
   { intros r H. rewrite nlen_skipn. reflexivity. }
-  split; cbn [bufr_ops lr_ops r_ensure r_read1 r_readn r_skip r_gethandle].
+  apply mk_rops_rel; cbn [bufr_ops lr_ops r_ensure r_read1 r_readn r_skip r_gethandle].
   - intros n r l (H1 & H2 & ->). rewrite sub64_small by lia. fold (nlen (skipn (tn (br_idx r)) (br_buf r))).
     rewrite Len by lia. destruct (N.ltb_spec (br_size r - br_idx r) n).
     + rewrite (proj2 (N.leb_gt _ _)) by lia. cbn. unfold bufr_rel; auto.
@@ -120,7 +120,7 @@ Qed.
 
 Lemma lr_ext_rel x : rops_rel false (ext_rel x) lr_ops lr_ops.
 Proof.
-  split; cbn [lr_ops r_ensure r_read1 r_readn r_skip r_gethandle]; unfold ext_rel.
+  apply mk_rops_rel; cbn [lr_ops r_ensure r_read1 r_readn r_skip r_gethandle]; unfold ext_rel.
   - intros n l1 l2 ->. destruct (N.leb_spec n (N.of_nat (length l1))) as [L|L]; [|exact I].
     rewrite app_length, Nat2N.inj_add. rewrite (proj2 (N.leb_le _ _)) by lia. cbn. auto.
   - intros l1 l2 ->. destruct l1 as [|b r]; [exact I|]. cbn. auto.
@@ -135,7 +135,7 @@ Theorem dec_extend t bs v rest x :
   dec t lr_ops bs = Ok v rest -> dec t lr_ops (bs ++ x) = Ok v (rest ++ x).
 Proof.
   intros H. pose proof (dec_sim false t (ext_rel x) lr_ops lr_ops bs (bs ++ x) (lr_ext_rel x) eq_refl) as S.
-  rewrite H in S. unfold rel_res in S.
+  rewrite H in S. unfold rel_res, rel_resg in S.
   destruct (dec t lr_ops (bs ++ x)) as [v' r'|e r']; [|contradiction].
   destruct S as [-> ->]. reflexivity.
 Qed.
@@ -158,7 +158,7 @@ Theorem truncation_rejected_any_source t e v k {R} (rho : R -> LR -> Prop) (o : 
   exists err r', dec t o r = Err err r'.
 Proof.
   intros Hops Hr He Hk. pose proof (dec_sim true t rho o lr_ops r _ Hops Hr) as S.
-  unfold rel_res in S. destruct (dec t o r) as [v' r'|err r']; [|eauto].
+  unfold rel_res, rel_resg in S. destruct (dec t o r) as [v' r'|err r']; [|eauto].
   destruct (dec t lr_ops (firstn k e)) as [v2 r2|e2 r2] eqn:E; [|contradiction].
   exfalso. exact (truncation_rejected t e v k He Hk v2 r2 E).
 Qed.
